@@ -4,4 +4,4 @@ id="$1"; n="$2"; cd /verif
 cp -r /tmp/seed$n-$id/seed/$id-* seeded/ || exit 1
 names=$(ls /tmp/seed$n-$id/seed/ | grep "^$id-")
 git -C /repo worktree remove --force /tmp/seed$n-$id; rm -f /tmp/seed$n-$id.prompt
-for s in $names; do flock /tmp/seedcollect.lock tools/seedbatch.sh $s; done >> /tmp/sb$n.log 2>&1
+lane=$(( 10#${id#C} % 4 )); for s in $names; do flock /tmp/seedcollect.lock.$lane tools/seedbatch.sh $s; done >> /tmp/sb$n.log 2>&1
